@@ -1,97 +1,220 @@
-//! vcheck <ID> [--tier quick|thorough] [--seed N] [--replay FILE] [--verif-dir DIR]
+//! vcheck <ID> [quick|thorough] [--seed N] [--replay FILE] [--verif-dir DIR] [--threads N]
+//!
+//! The process started by the user is a supervisor: it re-executes itself with `--child` to do
+//! the work, so that an abort or stack overflow provoked inside the library under test is
+//! turned into a replayable VIOLATION instead of a dead check.
 
 use vcore::core::{self, Ctx, Known, Tier, Violation};
-use vcore::props;
+use vcore::{crumb, props};
 
-use std::path::PathBuf;
+use std::path::{Path, PathBuf};
 use std::time::Instant;
 
 #[global_allocator]
 static GLOBAL: vcore::alloc::Counting = vcore::alloc::Counting;
 
 fn usage() -> ! {
-    eprintln!("usage: vcheck <ID> [--tier quick|thorough] [--seed N] [--replay FILE] [--verif-dir DIR] [--threads N]");
+    eprintln!("usage: vcheck <ID> [quick|thorough] [--seed N] [--replay FILE] [--verif-dir DIR] [--threads N]");
     std::process::exit(2);
 }
 
-fn main() {
-    let args: Vec<String> = std::env::args().skip(1).collect();
+struct Args {
+    id: String,
+    tier: Tier,
+    seed: u64,
+    replay: Option<PathBuf>,
+    verif_dir: PathBuf,
+    threads: usize,
+    child: bool,
+    crumb_dir: Option<PathBuf>,
+}
+
+fn parse_args(args: &[String]) -> Args {
     if args.is_empty() {
         usage();
     }
-    // worker mode for crash-isolated campaigns
-    if args[0] == "--worker" {
-        std::process::exit(vcore::props::worker_main(&args[1..]));
-    }
-    let id = args[0].clone();
-    let mut tier = match std::env::var("VERIF_TIER").ok().as_deref() {
-        Some("thorough") => Tier::Thorough,
-        _ => Tier::Quick,
+    let mut a = Args {
+        id: String::new(),
+        tier: match std::env::var("VERIF_TIER").ok().as_deref() {
+            Some("thorough") => Tier::Thorough,
+            _ => Tier::Quick,
+        },
+        seed: std::env::var("VERIF_SEED")
+            .ok()
+            .and_then(|s| s.trim().parse::<i128>().ok())
+            .map(|v| v as u64)
+            .unwrap_or(1),
+        replay: None,
+        verif_dir: PathBuf::from("/verif"),
+        threads: std::thread::available_parallelism().map(|n| n.get()).unwrap_or(4).min(16),
+        child: false,
+        crumb_dir: None,
     };
-    let mut seed: u64 = std::env::var("VERIF_SEED")
-        .ok()
-        .and_then(|s| s.trim().parse::<i128>().ok())
-        .map(|v| v as u64)
-        .unwrap_or(1);
-    let mut replay: Option<PathBuf> = None;
-    let mut verif_dir = PathBuf::from("/verif");
-    let mut threads = std::thread::available_parallelism().map(|n| n.get()).unwrap_or(4).min(16);
-    let mut explicit_tier = false;
-    let mut i = 1;
+    let mut i = 0;
     while i < args.len() {
         match args[i].as_str() {
+            "--child" => a.child = true,
             "--tier" => {
                 i += 1;
-                tier = match args.get(i).map(|s| s.as_str()) {
+                a.tier = match args.get(i).map(|s| s.as_str()) {
                     Some("quick") => Tier::Quick,
                     Some("thorough") => Tier::Thorough,
                     _ => usage(),
                 };
-                explicit_tier = true;
             }
-            "quick" => {
-                tier = Tier::Quick;
-                explicit_tier = true;
-            }
-            "thorough" => {
-                tier = Tier::Thorough;
-                explicit_tier = true;
-            }
+            "quick" => a.tier = Tier::Quick,
+            "thorough" => a.tier = Tier::Thorough,
             "--seed" => {
                 i += 1;
-                seed = args.get(i).and_then(|s| s.parse().ok()).unwrap_or_else(|| usage());
+                a.seed = args.get(i).and_then(|s| s.parse().ok()).unwrap_or_else(|| usage());
             }
             "--replay" => {
                 i += 1;
-                replay = Some(PathBuf::from(args.get(i).unwrap_or_else(|| usage())));
+                a.replay = Some(PathBuf::from(args.get(i).unwrap_or_else(|| usage())));
             }
             "--verif-dir" => {
                 i += 1;
-                verif_dir = PathBuf::from(args.get(i).unwrap_or_else(|| usage()));
+                a.verif_dir = PathBuf::from(args.get(i).unwrap_or_else(|| usage()));
+            }
+            "--crumb-dir" => {
+                i += 1;
+                a.crumb_dir = Some(PathBuf::from(args.get(i).unwrap_or_else(|| usage())));
             }
             "--threads" => {
                 i += 1;
-                threads = args.get(i).and_then(|s| s.parse().ok()).unwrap_or_else(|| usage());
+                a.threads = args.get(i).and_then(|s| s.parse().ok()).unwrap_or_else(|| usage());
             }
+            s if a.id.is_empty() && !s.starts_with('-') => a.id = s.to_string(),
             _ => usage(),
         }
         i += 1;
     }
-    let _ = explicit_tier;
+    if a.id.is_empty() {
+        usage();
+    }
+    a
+}
+
+fn main() {
+    let raw: Vec<String> = std::env::args().skip(1).collect();
+    if raw.first().map(|s| s == "--worker").unwrap_or(false) {
+        std::process::exit(vcore::props::worker_main(&raw[1..]));
+    }
+    let args = parse_args(&raw);
+    if args.child {
+        std::process::exit(child_main(args));
+    }
+    std::process::exit(supervisor(args, &raw));
+}
+
+fn supervisor(args: Args, raw: &[String]) -> i32 {
+    use std::os::unix::process::ExitStatusExt;
+    let started = Instant::now();
+    let run_dir = args.verif_dir.join("harness").join("target").join("run").join(format!("{}-{}", args.id, std::process::id()));
+    let _ = std::fs::remove_dir_all(&run_dir);
+    let _ = std::fs::create_dir_all(&run_dir);
+    let exe = std::env::current_exe().expect("current exe");
+    let status = std::process::Command::new(exe)
+        .arg("--child")
+        .arg("--crumb-dir")
+        .arg(&run_dir)
+        .args(raw)
+        .status();
+    let code = match status {
+        Err(e) => {
+            println!("INFRA: cannot start child: {}", e);
+            2
+        }
+        Ok(st) => {
+            let how = match (st.code(), st.signal()) {
+                (Some(c), _) if c == 0 || c == 1 || c == 2 => None,
+                (Some(77), _) => Some("exit 77: a single allocation request above the 1 GiB limit (allocation bomb)".to_string()),
+                (Some(c), _) => Some(format!("exit code {}", c)),
+                (None, Some(s)) => Some(format!("killed by signal {} ({})", s, signal_name(s))),
+                _ => Some("unknown termination".into()),
+            };
+            match how {
+                None => st.code().unwrap(),
+                Some(how) => report_crash(&args, &run_dir, &how, started),
+            }
+        }
+    };
+    let _ = std::fs::remove_dir_all(&run_dir);
+    code
+}
+
+fn signal_name(s: i32) -> &'static str {
+    match s {
+        6 => "SIGABRT: abort, e.g. allocation failure or stack overflow guard",
+        9 => "SIGKILL",
+        11 => "SIGSEGV: e.g. stack overflow",
+        4 => "SIGILL",
+        7 => "SIGBUS",
+        _ => "?",
+    }
+}
+
+fn report_crash(args: &Args, run_dir: &Path, how: &str, started: Instant) -> i32 {
+    let crumbs = crumb::read_all(run_dir);
+    // a harness panic (exit 101) whose location is in harness code is an infrastructure problem
+    if how == "exit code 101" && crumbs.is_empty() {
+        println!("INFRA: the check process panicked ({}), no case was in flight", how);
+        return 2;
+    }
+    if let Some(path) = &args.replay {
+        println!("VIOLATION property={} replay={}", args.id, path.display());
+        println!("  signature: {}/process-crash", args.id);
+        println!("  message:   replaying the case ended the process: {}", how);
+        return 1;
+    }
+    let v = Violation {
+        property: args.id.clone(),
+        kind: "crash".into(),
+        signature: format!("{}/process-crash", args.id),
+        message: format!(
+            "the process running the check died ({}) while library code was executing one of the listed cases; the library must never abort, overflow the stack or exhaust memory",
+            how
+        ),
+        case: serde_json::json!({"how": how, "in_flight": crumbs}),
+    };
+    let dir = args.verif_dir.join("replays").join("found").join(&args.id);
+    let _ = std::fs::create_dir_all(&dir);
+    let path = dir.join(format!("process-crash-{:08x}.json", core::hash_of(&v.case.to_string()) as u32));
+    let _ = std::fs::write(&path, serde_json::to_string_pretty(&v).unwrap());
+    // evidence: the run did not complete
+    let ev = serde_json::json!({
+        "property_id": args.id, "tier": args.tier.name(), "seed": args.seed, "level": "other",
+        "coverage": {"explanation": format!("run aborted: {}; cases in flight: {}", how, v.case["in_flight"].as_array().map(|a| a.len()).unwrap_or(0)),
+                     "samples": [v.case.clone()]},
+        "wall_s": started.elapsed().as_secs_f64(), "violations": 1
+    });
+    let evdir = args.verif_dir.join("evidence");
+    let _ = std::fs::create_dir_all(&evdir);
+    let _ = std::fs::write(evdir.join(format!("{}.json", args.id)), serde_json::to_string_pretty(&ev).unwrap());
+    println!("VIOLATION property={} replay={}", args.id, path.display());
+    println!("  signature: {}", v.signature);
+    println!("  message:   {}", v.message);
+    1
+}
+
+fn child_main(args: Args) -> i32 {
     core::install_panic_hook();
+    if let Some(d) = &args.crumb_dir {
+        crumb::init(d.clone());
+    }
     let ctx = Ctx {
-        id: id.clone(),
-        tier,
-        seed,
-        known: Known::load(&verif_dir, &id),
-        verif_dir,
-        threads,
+        id: args.id.clone(),
+        tier: args.tier,
+        seed: args.seed,
+        known: Known::load(&args.verif_dir, &args.id),
+        verif_dir: args.verif_dir.clone(),
+        threads: args.threads,
     };
 
     // wall-clock watchdog: a hang is an infrastructure problem (exit 2), never a violation
-    let limit = match tier {
+    let limit = match args.tier {
         Tier::Quick => 1500,
-        Tier::Thorough => 6 * 3600,
+        Tier::Thorough => 8 * 3600,
     };
     std::thread::spawn(move || {
         std::thread::sleep(std::time::Duration::from_secs(limit));
@@ -99,8 +222,8 @@ fn main() {
         std::process::exit(2);
     });
 
-    if let Some(path) = replay {
-        std::process::exit(replay_file(&ctx, &path, true));
+    if let Some(path) = &args.replay {
+        return replay_file(&ctx, path, true);
     }
 
     let started = Instant::now();
@@ -109,7 +232,10 @@ fn main() {
     let dir = ctx.verif_dir.join("replays").join(&ctx.id);
     let mut replayed = 0;
     if let Ok(rd) = std::fs::read_dir(&dir) {
-        let mut files: Vec<PathBuf> = rd.filter_map(|e| e.ok().map(|e| e.path())).filter(|p| p.extension().map(|x| x == "json").unwrap_or(false)).collect();
+        let mut files: Vec<PathBuf> = rd
+            .filter_map(|e| e.ok().map(|e| e.path()))
+            .filter(|p| p.extension().map(|x| x == "json").unwrap_or(false))
+            .collect();
         files.sort();
         for f in files {
             replayed += 1;
@@ -119,15 +245,19 @@ fn main() {
         }
     }
     let Some((mut report, meta)) = props::run(&ctx) else {
-        eprintln!("unknown property {}", id);
-        std::process::exit(2);
+        eprintln!("unknown property {}", ctx.id);
+        return 2;
     };
     report.notes.push(format!("replay tier: {} saved cases re-run first", replayed));
     let code = core::finish(&ctx, &report, &meta, started);
-    std::process::exit(if regress_violation { 1 } else { code });
+    if regress_violation {
+        1
+    } else {
+        code
+    }
 }
 
-fn replay_file(ctx: &Ctx, path: &std::path::Path, verbose: bool) -> i32 {
+fn replay_file(ctx: &Ctx, path: &Path, verbose: bool) -> i32 {
     let text = match std::fs::read_to_string(path) {
         Ok(t) => t,
         Err(e) => {
@@ -142,25 +272,43 @@ fn replay_file(ctx: &Ctx, path: &std::path::Path, verbose: bool) -> i32 {
             return 2;
         }
     };
-    let Some(fails) = props::replay(ctx, &v.kind, &v.case) else {
-        eprintln!("no replay for {} kind {}", ctx.id, v.kind);
-        return 2;
-    };
-    let mut code = 0;
-    for f in &fails {
-        if ctx.known.is_known(&f.sig) {
-            if verbose {
-                println!("KNOWN-FINDING: property={} {} {}", ctx.id, f.sig, f.msg);
+    // a crash file lists the cases that were in flight: run each of them
+    let mut work: Vec<(String, serde_json::Value)> = vec![];
+    if v.kind == "crash" {
+        if let Some(a) = v.case.get("in_flight").and_then(|a| a.as_array()) {
+            for c in a {
+                if let (Some(k), Some(case)) = (c.get("kind").and_then(|k| k.as_str()), c.get("case")) {
+                    work.push((k.to_string(), case.clone()));
+                }
             }
-            continue;
         }
-        println!("VIOLATION property={} replay={}", ctx.id, path.display());
-        println!("  signature: {}", f.sig);
-        println!("  message:   {}", f.msg);
-        code = 1;
+    } else {
+        work.push((v.kind.clone(), v.case.clone()));
+    }
+    let mut code = 0;
+    let mut hits = 0;
+    for (kind, case) in work {
+        crumb::case(&kind, &case);
+        let Some(fails) = props::replay(ctx, &kind, &case) else {
+            eprintln!("no replay for {} kind {}", ctx.id, kind);
+            return 2;
+        };
+        for f in &fails {
+            if ctx.known.is_known(&f.sig) {
+                hits += 1;
+                if verbose {
+                    println!("KNOWN-FINDING: property={} {} {}", ctx.id, f.sig, f.msg);
+                }
+                continue;
+            }
+            println!("VIOLATION property={} replay={}", ctx.id, path.display());
+            println!("  signature: {}", f.sig);
+            println!("  message:   {}", f.msg);
+            code = 1;
+        }
     }
     if verbose && code == 0 {
-        println!("replay {}: property held ({} known-finding hits)", path.display(), fails.len());
+        println!("replay {}: property held ({} known-finding hits)", path.display(), hits);
     }
     code
 }
